@@ -20,7 +20,8 @@ META = {
 }
 
 KINDS = {1: "marshal-bytes", 2: "Media.Unmarshal", 3: "Multivariant.Unmarshal", 4: "playlist.Unmarshal",
-         5: "model-panic-or-out-of-fuel"}
+         5: "model-panic-or-out-of-fuel", 6: "strict-grammar-vs-go-checker",
+         7: "c15_grammar-prediction-on-real-marshal-output"}
 
 
 def run_playlist(ctx, prop, floor):
